@@ -1431,3 +1431,46 @@ func TestProbe_strings(t *testing.T) {
 		}
 	}
 }
+
+func TestProbe_damage(t *testing.T) {
+	valid := []string{"//a[b]/c", "count(//a)", "a[@x='1']", "(a | b)[2]", "concat('a', \"b\", c)", "a/b//c", "substring(a, 1, 2)", "child::a[position()=last()]", "//a[b[c]]", "a and b or c", "1 + 2 * 3", "-a", "a = 'x'", "string-length(name(.))", "ancestor-or-self::p:q", "//*[contains(@class, 'x')]", "not(a) and (b or c)", "a[1][2]", "translate(a,'b','c')", "/"}
+	mustFail := func(s, why string) {
+		e, err := func() (e *Expr, err error) {
+			defer func() {
+				if r := recover(); r != nil {
+					err = fmt.Errorf("panic %v", r)
+				}
+			}()
+			return CompileWithNS(s, map[string]string{"p": "u"})
+		}()
+		if err == nil && e != nil {
+			t.Errorf("%s: Compile(%q) succeeded", why, s)
+		}
+	}
+	for _, v := range valid {
+		if _, err := CompileWithNS(v, map[string]string{"p": "u"}); err != nil {
+			t.Fatalf("%q does not compile: %v", v, err)
+		}
+		for i := 0; i < len(v); i++ {
+			switch v[i] {
+			case ']', ')', '\'', '"':
+				mustFail(v[:i]+v[i+1:], "closing delimiter deleted")
+			}
+			// cut off right after an operator, slash, opening bracket/parenthesis/quote, comma
+			switch v[i] {
+			case '/', '[', '(', '\'', '"', ',', '=', '+', '*', '|', '-':
+				cut := v[:i+1]
+				if cut == "/" || (v[i] == '*' && i > 0 && (v[i-1] == '/' || v[i-1] == ':')) || (v[i] == '-' && i > 0 && v[i-1] != ' ' && i > 0 && v[i-1] >= 'a' && v[i-1] <= 'z') {
+					continue // "/" and a name test "*" are complete expressions
+				}
+				if (v[i] == '\'' || v[i] == '"') && strings.Count(cut, string(v[i]))%2 == 0 {
+					continue // that was a closing quote
+				}
+				mustFail(cut, "cut off inside a construct")
+			}
+		}
+	}
+	for _, s := range []string{"a and", "a or", "a div", "a mod", "a <", "a !=", "a >=", "a/b/", "a//", "a[", "f(", "count(//a", "nosuchfunction(a)", "count()", "substring(a)", "contains(a)", "concat(a)", "not()", "nosuchaxis::a", "child::", "a:", ":a", "a::b", "p:", "starts-with('a')", "translate(a,b)", "p::a", "q:a"} {
+		mustFail(s, "ill-formed")
+	}
+}
